@@ -219,6 +219,30 @@ static int cmd_run(int argc, char **argv) {
   return nviol ? 1 : 0;
 }
 
+// ------------------------------------------------------------------------------------------------ hashes (determinism self-test)
+static int cmd_hashes(int argc, char **argv) {
+  if (argc < 8) return 2;
+  Engine *e = engine_by_name(argv[2]);
+  if (!e) return 2;
+  std::string family = argv[3], profile = argv[4];
+  uint64_t base = strtoull(argv[5], nullptr, 10), start = strtoull(argv[6], nullptr, 10), count = strtoull(argv[7], nullptr, 10);
+  unsigned stride = argc > 8 ? (unsigned)atoi(argv[8]) : 1;
+  if (!e->has_family(family)) return 2;
+  for (uint64_t k = 0; k < count; ++k) {
+    uint64_t i = start + k * stride;
+    uint64_t seed = run_seed(base, family, profile, i);
+    g_crash.seed = seed; g_crash.runIndex = (int)i;
+    Plan p;
+    if (profile == "scenario" ? !e->gen_scenario(family, seed, p) : !e->gen(family, profile, seed, p)) return 2;
+    alarm(20);
+    RunOut out = e->run(p, nullptr, false);
+    printf("H %llu %016llx %s %d\n", (unsigned long long)i, (unsigned long long)out.hash, vkind_name(out.viol.kind), out.viol.opIndex);
+  }
+  alarm(0);
+  printf("DONE\n");
+  return 0;
+}
+
 // ------------------------------------------------------------------------------------------------ C09 mode A
 static int cmd_enum(int argc, char **argv) {
   if (argc < 7) return 2;
@@ -552,6 +576,7 @@ int main(int argc, char **argv) {
   if (cmd == "list") return cmd_list();
   if (cmd == "run") return cmd_run(argc, argv);
   if (cmd == "enum") return cmd_enum(argc, argv);
+  if (cmd == "hashes") return cmd_hashes(argc, argv);
   if (cmd == "plan") return cmd_plan(argc, argv);
   if (cmd == "exec") return cmd_exec(argc, argv);
   if (cmd == "shrink") return cmd_shrink(argc, argv);
